@@ -148,3 +148,39 @@ Definition struct_pins_ok (st : struct_table) : bool :=
                                           | _ => false
                                           end) (st_fields st)) (st_consts st)
   && nodupb (map (fun e => fst (fst e)) (st_fields st)).
+
+(* ---- configuration conversions ------------------------------------------------------------- *)
+
+(* One configuration conversion (`fn convert_outstation_config`, `TryFrom<ffi::AssociationConfig>`,
+   ...): for every field of the native configuration the binding accessor that feeds it and WHAT is
+   done to it on the way (the wrapper), next to the hand-reviewed wrapper of that field
+   (tools/gen/ffi_fallbacks.json, config_wrappers). *)
+Record config_table := mk_config_table {
+  ct_name    : string;
+  ct_rows    : list (string * string * string);  (* (native field, binding accessor, wrapper) *)
+  ct_aliases : list (string * string);           (* pinned (field, accessor) pairs, as in struct tables *)
+  ct_pinned  : list (string * string)            (* reviewed: native field |-> wrapper *)
+}.
+
+(* the closed vocabulary of wrappers (what each means is documented in tools/gen/gen_ffi.py WRAPPERS
+   and tied to the documented reading of the field in tools/props/c20.py WRAP_RULES) *)
+Definition config_wrappers : list string :=
+  ["id"; "usize"; "some"; "some-usize"; "into"; "match"; "endpoint-address"; "buffer-size"; "timeout";
+   "zero-none"; "fn:convert_event_classes"; "fn:convert_classes"; "fn:convert_auto_time_sync";
+   "fn:to_feature"; "ctor:RetryStrategy"; "parse-str"].
+
+Definition config_row_ok (ct : config_table) (r : string * string * string) : bool :=
+  match r with
+  | (f, acc, w) => (String.eqb acc f || pair_mem (f, acc) (ct_aliases ct))
+                   && mem w config_wrappers
+                   && is_some_eq (lookup f (ct_pinned ct)) w
+  end.
+
+(* every row obeys the rule, every reviewed wrapper is about a row, no field assigned twice *)
+Definition config_table_ok (ct : config_table) : bool :=
+  forallb (config_row_ok ct) (ct_rows ct)
+  && forallb (fun p => mem (fst p) (map (fun r => fst (fst r)) (ct_rows ct))) (ct_pinned ct)
+  && nodupb (map (fun r => fst (fst r)) (ct_rows ct)).
+
+Definition find_config (l : list config_table) (n : string) : option config_table :=
+  find (fun t => String.eqb (ct_name t) n) l.
